@@ -91,6 +91,12 @@ theorem load_RInv (b0 : Buf) (hv : b0.valid) : RInv b0 (load false b0) := by
     constructor <;> simp [Chain, hw, hr]
   · constructor <;> simp [Chain, h1]
 
+/-- The shortened `io2` of an `io_limit` block lies between `iop` and the old `io2`. -/
+theorem limit_bounds (iop io2 lim : Nat) (h : iop ≤ io2) :
+    iop ≤ (if io2 - iop > lim then iop + lim else io2) ∧
+    (if io2 - iop > lim then iop + lim else io2) ≤ io2 := by
+  split <;> omega
+
 theorem exec_RInv (b0 : Buf) (s : St) (i : Instr) (h : RInv b0 s) : RInv b0 (exec s i) := by
   obtain ⟨hw, hmem, hlen, hri, hhp, hio1, hlo, hhi, hwi, hch⟩ := h
   cases i with
@@ -99,36 +105,33 @@ theorem exec_RInv (b0 : Buf) (s : St) (i : Instr) (h : RInv b0 s) : RInv b0 (exe
     split
     · rename_i hn
       have hn : n ≤ s.io2 - s.iop := by simpa using hn
-      constructor <;> simp_all <;> omega
+      constructor <;> dsimp only <;> first | assumption | omega
     · constructor <;> assumption
   | skip n =>
     simp only [exec, hw, Bool.not_false, ↓reduceIte]
-    constructor <;> simp_all <;> omega
+    constructor <;> dsimp only <;> first | assumption | omega
   | undo =>
     simp only [exec]
     split
-    · constructor <;> simp_all <;> omega
+    · constructor <;> dsimp only <;> first | assumption | omega
     · constructor <;> assumption
-  | wr bs => simp only [exec, hw, Bool.false_and]; constructor <;> simp_all
-  | wrPartial bs => simp only [exec, hw]; constructor <;> simp_all
-  | copyHist n d => simp only [exec, hw, Bool.false_and]; constructor <;> simp_all
+  | wr bs => simp only [exec, hw, Bool.false_and, Bool.false_eq_true, ↓reduceIte]; constructor <;> assumption
+  | wrPartial bs => simp only [exec, hw, Bool.false_eq_true, ↓reduceIte]; constructor <;> assumption
+  | copyHist n d => simp only [exec, hw, Bool.false_and, Bool.false_eq_true, ↓reduceIte]; constructor <;> assumption
   | limitBegin lim =>
-    simp only [exec, hw]
-    constructor <;> simp_all
-    · split <;> omega
-    · split <;> omega
-    · refine ⟨?_, hch⟩
-      split <;> omega
+    simp only [exec, hw, Bool.false_eq_true, ↓reduceIte]
+    have hb := limit_bounds s.iop s.io2 lim hhi
+    constructor <;> dsimp only <;> first | assumption | omega | exact hb.1 | exact ⟨hb.2, hch⟩
   | limitEnd =>
     simp only [exec]
     cases hst : s.stack with
-    | nil => simp only; constructor <;> assumption
+    | nil => dsimp only; constructor <;> assumption
     | cons a r =>
       obtain ⟨sio2, sc⟩ := a
       rw [hst] at hch
-      simp only [hw]
-      constructor <;> simp_all [Chain]
-      omega
+      obtain ⟨hc1, hc2⟩ := hch
+      simp only [hw, Bool.false_eq_true, ↓reduceIte]
+      constructor <;> dsimp only <;> first | assumption | omega
 
 theorem runI_RInv (b0 : Buf) (is : List Instr) (s : St) (h : RInv b0 s) : RInv b0 (runI s is) := by
   induction is generalizing s with
@@ -147,15 +150,15 @@ theorem iobuf_inv_reader (b0 : Buf) (hv : b0.valid) (is : List Instr) :
   have h := runI_RInv b0 is _ (load_RInv b0 hv)
   obtain ⟨hw, hmem, hlen, hri, hhp, hio1, hlo, hhi, hwi, hch⟩ := h
   have hle := hch.le
+  have hml : (runI (load false b0) is).b.mem.length = b0.mem.length := by rw [hmem]
   obtain ⟨h1, h2, h3, h4⟩ := hv
   unfold callIO finalSave
   cases hp : b0.hasPtr
-  · simp only [hhp, hp, Bool.not_false, ↓reduceIte, Buf.valid, hmem, hlen, hri, hwi]
+  · simp only [hhp, hp, Bool.not_false, ↓reduceIte, Buf.valid]
     have := h4 hp
-    refine ⟨⟨?_, ?_, ?_, fun _ => by omega⟩, ?_, ?_, ?_⟩ <;> omega
-  · simp only [hhp, hp, Bool.not_true, Bool.false_eq_true, ↓reduceIte, hw, Buf.valid, hmem, hlen,
-      hwi]
-    refine ⟨⟨hhi, ?_, ?_, ?_⟩, ?_, trivial, trivial, ?_⟩ <;> first | omega | simp
+    refine ⟨⟨?_, ?_, ?_, fun _ => by omega⟩, ?_, hmem, hlen, ?_⟩ <;> omega
+  · simp only [hhp, hp, Bool.not_true, Bool.false_eq_true, ↓reduceIte, hw, Buf.valid]
+    refine ⟨⟨?_, ?_, ?_, ?_⟩, ?_, hmem, hlen, ?_⟩ <;> first | omega | simp
 
 /-! ### writer -/
 
@@ -186,63 +189,55 @@ theorem load_WInv (b0 : Buf) (hv : b0.valid) : WInv b0 (load true b0) := by
 theorem exec_WInv (b0 : Buf) (s : St) (i : Instr) (h : WInv b0 s) : WInv b0 (exec s i) := by
   obtain ⟨hw, hml, hbelow, hri, hwi, hhp, hio1, hlo, hhi, hcap, hlenle, hch⟩ := h
   cases i with
-  | rd n => simp only [exec, hw, Bool.not_true, Bool.false_and]; constructor <;> simp_all
-  | skip n => simp only [exec, hw, Bool.not_true]; constructor <;> simp_all
+  | rd n => simp only [exec, hw, Bool.not_true, Bool.false_and, Bool.false_eq_true, ↓reduceIte]; constructor <;> assumption
+  | skip n => simp only [exec, hw, Bool.not_true, Bool.false_eq_true, ↓reduceIte]; constructor <;> assumption
   | undo =>
     simp only [exec]
     split
-    · constructor <;> simp_all <;> omega
+    · constructor <;> dsimp only <;> first | assumption | omega
     · constructor <;> assumption
   | wr bs =>
     simp only [exec, hw, Bool.true_and]
     split
     · rename_i hn
       have hn : bs.length ≤ s.io2 - s.iop := by simpa using hn
-      constructor <;> simp_all [storeAt_length]
+      constructor <;> dsimp only <;> first | assumption | omega | skip
+      · rw [storeAt_length]; exact hml
       · intro i hi'
         rw [storeAt_get_lt _ _ _ _ (by omega)]
         exact hbelow i hi'
-      · omega
-      · omega
-      · exact hch.mono (by omega) |>.mono (Nat.le_refl _)
     · constructor <;> assumption
   | wrPartial bs =>
     simp only [exec, hw, ↓reduceIte]
-    constructor <;> simp_all [storeAt_length]
+    constructor <;> dsimp only <;> first | assumption | omega | skip
+    · rw [storeAt_length]; exact hml
     · intro i hi'
       rw [storeAt_get_lt _ _ _ _ (by omega)]
       exact hbelow i hi'
-    · omega
-    · omega
   | copyHist n d =>
     simp only [exec, hw, Bool.true_and]
     split
-    · constructor <;> simp_all [copyLoop_length]
+    · constructor <;> dsimp only <;> first | assumption | omega | skip
+      · rw [copyLoop_length]; exact hml
       · intro i hi'
         rw [copyLoop_get_lt _ _ _ _ _ (by omega)]
         exact hbelow i hi'
-      · omega
-      · omega
     · constructor <;> assumption
   | limitBegin lim =>
     simp only [exec, hw, ↓reduceIte]
-    constructor <;> simp_all
-    · split <;> omega
-    · split <;> omega
-    · split <;> omega
-    · refine ⟨?_, hch⟩
-      split <;> omega
+    have hb := limit_bounds s.iop s.io2 lim hhi
+    constructor <;> dsimp only <;> first | assumption | omega | exact hb.1 | exact ⟨hb.2, hch⟩
   | limitEnd =>
     simp only [exec]
     cases hst : s.stack with
-    | nil => simp only; constructor <;> assumption
+    | nil => dsimp only; constructor <;> assumption
     | cons a r =>
       obtain ⟨sio2, sc⟩ := a
       rw [hst] at hch
+      obtain ⟨hc1, hc2⟩ := hch
+      have := hc2.le
       simp only [hw, ↓reduceIte]
-      have := hch.2.le
-      constructor <;> simp_all [Chain]
-      omega
+      constructor <;> dsimp only <;> first | assumption | omega
 
 theorem runI_WInv (b0 : Buf) (is : List Instr) (s : St) (h : WInv b0 s) : WInv b0 (runI s is) := by
   induction is generalizing s with
